@@ -18,7 +18,7 @@ import (
 
 const modPath = "github.com/weedbox/pokerface"
 
-var corePkgs = []string{".", "./pot", "./settlement", "./combination", "./seat_manager", "./regulator"}
+var corePkgs = []string{".", "./pot", "./settlement", "./combination", "./seat_manager", "./regulator", "./table"}
 
 type Program struct {
 	Repo       string
@@ -35,6 +35,7 @@ type Program struct {
 	Funs       map[string]*FunDef   // recursive spec functions by "pkg.Name"
 	Lemmas     []*LemmaDef
 	Guards     []*GuardDef
+	Structs    []*StructDef
 	GhostDecls map[string][][2]string  // package -> (name, Go type) of ghost variables
 	ghostTypes map[string]*types.Named // package -> synthesized struct type holding them
 	GlobTab    map[*ssa.Global]*GlobalTable
